@@ -114,8 +114,13 @@ def ac_control_record(r):
 
 # ---- console-side builders
 
+def _name_bytes(s):
+    """A name is a str or already a list of UTF-8 byte values (possibly symbolic)."""
+    return list(s.encode("utf-8")) if isinstance(s, str) else list(s)
+
+
 def c_string(s, n):
-    b = s.encode("utf-8")[:n]
+    b = _name_bytes(s)[:n]
     return list(b) + [0] * (n - len(b))
 
 
@@ -124,7 +129,7 @@ def build_ability(ac, name, start_zone, zone_count, mode_bits, fan_bits, min_coo
 
 
 def build_zone_name(zone, name):
-    b = list(name.encode("utf-8"))
+    b = _name_bytes(name)
     return [zone, len(b)] + b
 
 
